@@ -32,6 +32,9 @@ type Engine struct {
 	typeIDs   map[string]int
 	typeByID  []types.Type
 	Verbose   bool
+	// LoopShift: offset added to a loop counter that stands in for a contract loop variable not found by
+	// name (see loopVarValueT); set by VerifyWithRebinding only.
+	LoopShift int
 }
 
 // FnKey is the stable name of a function used to attach contracts.
